@@ -76,6 +76,8 @@ func weave(s *Session, client []Step, r *rand.Rand) {
 			s.Ops[i].Invoke = "panic"
 		case 2, 3:
 			s.Ops[i].OnCancel = "adderr"
+		case 4, 5:
+			s.Ops[i].OnCancel = "ignore"
 		}
 	}
 	// server-side events per operation, to be placed after the client's start of that operation
